@@ -23,7 +23,7 @@ from bacpypes.app import DeviceInfoCache
 from bacpypes.pdu import LocalStation
 from contracts.ssm import PDUObj, ConfReq, SimpleAck, ComplexAck, SegAck, ErrorP, RejectP, AbortP
 
-BOUND = 3       # live transactions per list (structural bound of these units)
+BOUND = 4 if __import__("os").environ.get("VERIF_TIER") == "thorough" else 3       # live transactions per list (structural bound of these units)
 
 A, B, C3 = LocalStation(1), LocalStation(2), LocalStation(3)
 
